@@ -137,6 +137,23 @@ def setup_worker():
 # --------------------------------------------------------------------------
 
 
+def _with_history(program, specs):
+    """A third of the lazy arguments are handed over already exhausted, a sixth partly read: an element must
+    treat a lazy list the same whatever was observed on it before."""
+    import zlib
+
+    out = []
+    for i, sp in enumerate(specs):
+        if isinstance(sp, dict) and "lazy" in sp and "read" not in sp:
+            h = zlib.crc32(repr((program, i, sp)).encode("utf-8", "replace")) % 6
+            if h in (0, 1):
+                sp = dict(sp, read="all")
+            elif h == 2 and sp["lazy"]:
+                sp = dict(sp, read=1)
+        out.append(sp)
+    return out
+
+
 def _new_res():
     return {"evals": 0, "keys": [], "violations": [], "inconclusive": [], "skips": {}, "counters": {}, "samples": []}
 
@@ -297,6 +314,7 @@ def run_case_a(program, specs, res, kind="key", mod=None, operands=None):
     from lib.harness import short_hash
     from lib.monitors import frame
 
+    specs = _with_history(program, specs)
     for s in specs:
         if ec.spec_is_listy(s) and not _selfcheck_spec(s):
             _skip(res, "generator_selfcheck")
